@@ -1,4 +1,6 @@
 """C18  Parallel surrogate construction and loading: race-free, exactly-once, bounded (structural clauses)."""
+import sympy
+from tsg.sym import to_sympy, NotClosedForm
 from tsg.facts import DB, strip, txt, callee, call_args, call_object, walk, const_val, short, children
 from tsg.flow import var_of, base_var, cond_edges_dominating, is_reachable, element_writes
 from tsg.typestate import member_writes, must_pass_after
@@ -329,6 +331,30 @@ def run(chk):
             chk.saw(l)
             chk.ob("C18-D7.extent", l.key, "`%s` is given an exact size on every path of %s" % (ps[1].get("name"), name), not leak, l.where,
                    "" if not leak else "a path returns without resize()/clear()/evaluate*(): the buffer keeps the length of an earlier, longer batch")
+            # the size given by resize() is the number of outputs times the number of points of *this* batch
+            xdid = ps[0]["did"]
+            XS, ND, NO = sympy.Symbol("xsize", positive=True, integer=True), sympy.Symbol("num_dimensions", positive=True, integer=True), sympy.Symbol("num_outputs", positive=True, integer=True)
+
+            def res(n, xdid=xdid):
+                if n.get("k") == "CXXMemberCallExpr" and short(callee(n) or "") == "size" and (strip(call_object(n)) or {}).get("did") == xdid:
+                    return XS
+                if n.get("k") == "DeclRefExpr" and n.get("var") == "num_dimensions":
+                    return ND
+                if n.get("k") == "DeclRefExpr" and n.get("var") == "num_outputs":
+                    return NO
+                if n.get("k") == "DeclRefExpr" and n.get("var"):
+                    return sympy.Symbol("v_" + n["var"], positive=True, integer=True)
+                return None
+            for q in l.walk():
+                if q.get("k") == "CXXMemberCallExpr" and short(callee(q) or "") == "resize" and (strip(call_object(q)) or {}).get("did") == ydid and call_args(q):
+                    try:
+                        e = to_sympy(call_args(q)[0], res)
+                        oke = sympy.simplify(e - NO * sympy.floor(XS / ND)) == 0 or sympy.simplify(e.subs(sympy.floor(XS / ND), XS / ND) - NO * XS / ND) == 0
+                        det = str(e)
+                    except NotClosedForm as ex:
+                        oke, det = False, "not a closed form: %s" % ex
+                    chk.ob("C18-D7.extent", l.key, "resize of `%s` in %s takes the size of this batch" % (ps[1].get("name"), name), oke, l.loc(q),
+                           "size = %s" % det, "num_outputs * (number of points handed to the job)")
     chk.floor("C18-D7.extent", nbuf, 4, "buffer-preparing helpers (instantiations)")
 
     return ("Static rule discharge (R-LOCKSET on AST scopes, who-may-call for lambdas touching guarded data, branch-edge dominance for the unsigned budget difference, pairing of the "
